@@ -9,12 +9,14 @@ import (
 	"slices"
 	"sort"
 	"strconv"
+	"strings"
 	"sync"
 	"testing"
 	"testing/synctest"
 	"time"
 
 	"github.com/siderolabs/gen/optional"
+	"github.com/siderolabs/gen/xerrors"
 	"go.uber.org/zap"
 	"pgregory.net/rapid"
 
@@ -62,9 +64,12 @@ type Plan struct {
 	// tearing-down it places its finalizer on it (legal: finalizers may be added in any phase), i.e. right
 	// between the controller's Teardown and Destroy of that output.
 	ReactOut []int `json:"reactout,omitempty"`
-	Release  bool  `json:"release"`
-	Latency  []int `json:"latency"`
-	Deliv    []int `json:"deliv"`
+	// DestroyTag (qtransform only): the transform function answers an input whose value starts with "drop" with an
+	// error tagged qtransform.DestroyOutputTag ("output is not needed anymore"): such an input has no image.
+	DestroyTag bool  `json:"destroytag,omitempty"`
+	Release    bool  `json:"release"`
+	Latency    []int `json:"latency"`
+	Deliv      []int `json:"deliv"`
 }
 
 // IDs of the input domain.
@@ -91,6 +96,10 @@ func Gen(ctrls []string) func(t *rapid.T) Plan {
 
 		if rapid.IntRange(0, 3).Draw(t, "hasdrop") == 0 {
 			p.DropIDs = []int{rapid.IntRange(0, 2).Draw(t, "dropid")}
+		}
+
+		if strings.HasPrefix(p.Ctrl, "qtransform") {
+			p.DestroyTag = rapid.Bool().Draw(t, "destroytag")
 		}
 
 		if rapid.IntRange(0, 2).Draw(t, "hasreact") == 0 {
@@ -142,6 +151,10 @@ func Gen(ctrls []string) func(t *rapid.T) Plan {
 					case 2:
 						k = rapid.SampledFrom([]string{"destroy", "destroy", "destroy", "out-remfin", "out-remfin", "in-remfin", "in-remfin", "c-destroy", "c-remfin"}).Draw(t, "ktear")
 					}
+				}
+
+				if p.DestroyTag && k == "update" && rapid.IntRange(0, 1).Draw(t, "drop") == 0 {
+					k = "update-drop"
 				}
 
 				if !p.Cleanup && (k == "c-create" || k == "c-destroy" || k == "c-addfin" || k == "c-remfin") {
@@ -230,6 +243,10 @@ func dropped(p Plan, id string) bool {
 // Live tells whether the controller configuration treats the input as live.
 func Live(p Plan, in *model.Res) bool {
 	if in == nil || dropped(p, in.ID) {
+		return false
+	}
+
+	if p.DestroyTag && strings.HasPrefix(in.Val, "drop") {
 		return false
 	}
 
@@ -332,6 +349,10 @@ func runBubble(p Plan) *Result {
 
 		if errAt[n] {
 			return fmt.Errorf("transient transform error #%d", n)
+		}
+
+		if p.DestroyTag && strings.HasPrefix(in.TypedSpec().Value, "drop") {
+			return xerrors.NewTaggedf[qtransform.DestroyOutputTag]("output of %s is not needed", in.Metadata().ID())
 		}
 
 		out.TypedSpec().Value = F(in.TypedSpec().Value)
@@ -478,6 +499,12 @@ func runBubble(p Plan) *Result {
 		case "update":
 			_, _ = ext.UpdateWithConflicts(ctx, inPtr, func(r resource.Resource) error {
 				hres.SetTypedValue(r, "v"+strconv.Itoa(n))
+
+				return nil
+			})
+		case "update-drop":
+			_, _ = ext.UpdateWithConflicts(ctx, inPtr, func(r resource.Resource) error {
+				hres.SetTypedValue(r, "drop"+strconv.Itoa(n))
 
 				return nil
 			})
